@@ -252,6 +252,43 @@ class Box:
 def run_sequence(ctx, spec, events=None):
     """Runs the script on the real scheduler. Returns dict(events=[...concrete events with observed outcome...], ...).
     If [events] is given (replay) it is executed literally."""
+    g = run_sequence_gen(ctx, spec, events)
+    try:
+        while True:
+            next(g)
+    except StopIteration as e:
+        return e.value
+
+
+def run_twin(ctx, specs, events=None):
+    """Interleaved twin experiment: two independent schedulers alive in the same process, their events interleaved
+    (trial ids 0, 1, 2, ... are used by both); each is checked against its own reference and its own model instance.
+    Replay: the recorded events carry their global position "g" and are executed in that order."""
+    import random as _random
+    clock = [0]
+    gens = [run_sequence_gen(ctx, sp, None if events is None else events[i], clock) for i, sp in enumerate(specs)]
+    for g in gens:
+        next(g)  # construct both schedulers before any event
+    results = [None, None]
+    live = [0, 1]
+    rng = _random.Random(specs[0]["script_seed"] ^ specs[1]["script_seed"])
+    pos = [0, 0]
+    while live:
+        if events is None:
+            i = rng.choice(live)
+        else:
+            nxt = {j: (events[j][pos[j]].get("g", 0) if pos[j] < len(events[j]) else 10 ** 12) for j in live}
+            i = min(live, key=lambda j: nxt[j])
+            pos[i] += 1
+        try:
+            next(gens[i])
+        except StopIteration as e:
+            results[i] = e.value
+            live.remove(i)
+    return results
+
+
+def run_sequence_gen(ctx, spec, events=None, clock=None):
     import random as _random
     from syne_tune.optimizer.schedulers.hyperband import HyperbandScheduler
     from syne_tune.config_space import uniform
@@ -271,6 +308,25 @@ def run_sequence(ctx, spec, events=None):
     S.oh = U.OneHotBrackets(nb)
     sch.bracket_distribution = S.oh
     del sch
+
+    class Guard:
+        """scheduler object whose on_trial_remove / on_trial_complete / on_trial_error never crash the harness: an
+        exception other than the documented KeyError of on_trial_complete for an unknown trial is a failure"""
+
+        def __getattr__(self, name):
+            fn = getattr(S.sch, name)
+
+            def wrapped(*a, **k):
+                try:
+                    return fn(*a, **k)
+                except KeyError:
+                    if name == "on_trial_complete" and a and a[0].trial_id not in last_dec:
+                        raise
+                    violations.append(("%s(trial %s) raised KeyError" % (name, a[0].trial_id if a else "?"), "call_raises"))
+                except Exception as e:
+                    violations.append(("%s(trial %s) raised %s" % (name, a[0].trial_id if a else "?", type(e).__name__), "call_raises"))
+            return wrapped
+    G = Guard()
 
     def do_restore():
         """what Tuner.save / load do to the scheduler"""
@@ -364,12 +420,19 @@ def run_sequence(ctx, spec, events=None):
             return "Done"
         except AssertionError as e:
             return "AssertExists" if "already exists" in str(e) else "AssertOther"
+        except Exception as e:
+            violations.append(("suggest(%d) raised %s" % (tid, type(e).__name__), "call_raises"))
+            return "Raised"
 
     def do_report(tid, r, m):
         tr = trials.get(tid) or U.mk_trial(tid, {"x": 0.5})
         try:
             dec = S.sch.on_trial_result(tr, {"epoch": r, "m": m})
         except KeyError:
+            if last_dec.get(tid) == "CONTINUE" and r >= 1:
+                violations.append(("on_trial_result(trial %d, resource %d) raised KeyError although the trial is running" % (tid, r),
+                                   "on_trial_result_raises"))
+                last_dec[tid] = "RAISED"
             return "KeyError"
         except AssertionError:
             return "AssertResource" if r < 1 else "AssertOther"
@@ -387,10 +450,16 @@ def run_sequence(ctx, spec, events=None):
         return dec
 
     def emit(ev, outcome):
-        out_events.append(dict(ev, outcome=outcome))
+        ev = dict(ev, outcome=outcome)
+        if clock is not None:
+            ev["g"] = clock[0]
+            clock[0] += 1
+        out_events.append(ev)
 
+    yield  # the scheduler exists; in a twin experiment the other one is constructed before any event
     if events is not None:
         for ev in events:
+            yield
             k = ev["op"]
             if k == "suggest":
                 o = do_suggest(ev["t"], ev["b"])
@@ -400,24 +469,24 @@ def run_sequence(ctx, spec, events=None):
                 do_restore()
                 o = "Done"
             elif k == "remove":
-                S.sch.on_trial_remove(trials.get(ev["t"]) or U.mk_trial(ev["t"], {"x": 0.5}))
+                G.on_trial_remove(trials.get(ev["t"]) or U.mk_trial(ev["t"], {"x": 0.5}))
                 if last_dec.get(ev["t"]) == "CONTINUE":
                     last_dec[ev["t"]] = "PAUSE"
                 o = "Done"
             elif k == "complete":
                 try:
-                    S.sch.on_trial_complete(trials.get(ev["t"]) or U.mk_trial(ev["t"], {"x": 0.5}), {"epoch": ev.get("r", 1), "m": 0.0})
+                    G.on_trial_complete(trials.get(ev["t"]) or U.mk_trial(ev["t"], {"x": 0.5}), {"epoch": ev.get("r", 1), "m": 0.0})
                     if ev["t"] in last_dec:
                         last_dec[ev["t"]] = "STOP"
                     o = "Done"
                 except KeyError:
                     o = "KeyError"
             else:
-                S.sch.on_trial_error(trials.get(ev["t"]) or U.mk_trial(ev["t"], {"x": 0.5}))
+                G.on_trial_error(trials.get(ev["t"]) or U.mk_trial(ev["t"], {"x": 0.5}))
                 if ev["t"] in last_dec:
                     last_dec[ev["t"]] = "STOP"
                 o = "Done"
-            emit({kk: vv for kk, vv in ev.items() if kk != "outcome"}, o)
+            emit({kk: vv for kk, vv in ev.items() if kk not in ("outcome", "g")}, o)
     else:
         def start_new():
             nonlocal next_id
@@ -430,10 +499,12 @@ def run_sequence(ctx, spec, events=None):
             cursor[tid] = 0
 
         for _ in range(spec["concurrent"]):
+            yield
             start_new()
         zombies = []  # stopped / removed trials that may still send late reports
         restore_at = set(rng.sample(range(spec["steps"]), rng.choice([0, 0, 1, 1, 2])))
         for step in range(spec["steps"]):
+            yield
             if step in restore_at:
                 do_restore()
                 emit(dict(op="restore"), "Done")
@@ -466,14 +537,14 @@ def run_sequence(ctx, spec, events=None):
                 k = rng.choice(["remove", "complete", "error"])
                 ev = dict(op=k, t=tid)
                 if k == "remove":
-                    S.sch.on_trial_remove(trials[tid])
+                    G.on_trial_remove(trials[tid])
                     last_dec[tid] = "PAUSE"
                 elif k == "complete":
                     ev["r"] = max(cursor[tid], 1)
-                    S.sch.on_trial_complete(trials[tid], {"epoch": ev["r"], "m": 0.0})
+                    G.on_trial_complete(trials[tid], {"epoch": ev["r"], "m": 0.0})
                     last_dec[tid] = "STOP"
                 else:
-                    S.sch.on_trial_error(trials[tid])
+                    G.on_trial_error(trials[tid])
                     last_dec[tid] = "STOP"
                 emit(ev, "Done")
                 running.remove(tid)
@@ -491,7 +562,7 @@ def run_sequence(ctx, spec, events=None):
             if dec != "CONTINUE":
                 running.remove(tid)
                 if rng.random() < 0.8:
-                    S.sch.on_trial_remove(trials[tid])  # what the Tuner does after STOP
+                    G.on_trial_remove(trials[tid])  # what the Tuner does after STOP
                     emit(dict(op="remove", t=tid), "Done")
                 zombies.append(tid)
                 if next_id < spec["total"]:
@@ -702,7 +773,9 @@ def run(ctx, replay=None):
                 "1..4 forced through scheduler.bracket_distribution, shared or per-bracket rung systems, 2..8 concurrent "
                 "trials with interleaved, occasionally skipped / repeated / late / unknown-trial reports, dill round trips "
                 "of the scheduler (model: restore_state), remove / "
-                "complete / error calls; non-trivial = a script with a decision at a rung holding >= 2 entries; "
+                "complete / error calls; plus interleaved twin experiments (two independent schedulers with >= 2 brackets alive "
+                "in one process, events interleaved, same trial numbering, each against its own reference and model instance); "
+                "non-trivial = a script with a decision at a rung holding >= 2 entries; "
                 "distinct by content hash")
     rng = ctx.rng
     # ---------------- unit step ----------------------------------------------------------------
@@ -730,29 +803,27 @@ def run(ctx, replay=None):
 
     # ---------------- sequences ----------------------------------------------------------------
     if replay is None:
-        specs = [(gen_seq_spec(rng), None) for _ in range(ctx.n(450, 6000))]
+        jobs = [("single", gen_seq_spec(rng), None) for _ in range(ctx.n(360, 5000))]
+        for _ in range(ctx.n(50, 600)):
+            # interleaved twin experiment: two independent schedulers (own seeds, modes, rung systems) alive at once,
+            # several brackets, both numbering their trials 0, 1, 2, ...
+            tw = [gen_seq_spec(rng), gen_seq_spec(rng)]
+            for sp in tw:
+                sp["brackets"] = max(2, sp["brackets"])
+                sp["steps"] = min(sp["steps"], 90)
+            tw[1]["mode"] = rng.choice(["min", "max"])
+            jobs.append(("twin", tw, None))
     elif replay.get("kind") == "sequence":
-        specs = [(replay["spec"], replay.get("events"))]
+        jobs = [("single", replay["spec"], replay.get("events"))]
+    elif replay.get("kind") == "twin":
+        jobs = [("twin", replay["specs"], replay.get("events"))]
     else:
-        specs = []
+        jobs = []
     terms, meta = [], []
-    tot_boundary = tot_dec = 0
-    for spec, events in specs:
-        try:
-            with U.watchdog(120):
-                res = run_sequence(ctx, spec, events)
-        except ConstructorRaised as e:
-            ctx.violation("property", "HyperbandScheduler constructor raised %s for a valid configuration (documented max resource %r, "
-                          "max_t argument %r, max_resource_attr %r, constants %r)" % (e, spec["max_t"], spec.get("max_t_arg"),
-                                                                                     spec.get("max_resource_attr"), spec.get("space_consts")),
-                          case=dict(kind="sequence", spec=spec, events=events),
-                          signature=dict(scheduler="HyperbandScheduler", type=spec["type"], defect="constructor_raises"))
-            continue
-        except U.Hang as e:
-            ctx.violation("property", "HyperbandScheduler did not answer: %s" % e, case=dict(kind="sequence", spec=spec, events=events),
-                          signature=dict(scheduler="HyperbandScheduler", type=spec["type"], defect="hang"))
-            continue
-        ctx.count(("sequence", spec), nontrivial=res["n_nontrivial"] > 0)
+    tot = dict(boundary=0, dec=0)
+
+    def process(spec, res, case):
+        ctx.count(("sequence", spec, case["kind"]), nontrivial=res["n_nontrivial"] > 0)
         ctx.h("seq_type", spec["type"])
         ctx.h("seq_max_t_via", spec.get("max_t_via", "arg"))
         ctx.h("seq_dill_round_trips", sum(1 for e in res["events"] if e["op"] == "restore"))
@@ -764,10 +835,9 @@ def run(ctx, replay=None):
         ctx.h("rung_decisions", "at_rung", res["n_rung_decisions"])
         ctx.h("rung_decisions", "with_>=2_entries", res["n_nontrivial"])
         ctx.h("rung_decisions", "Boundary", res["n_boundary"])
-        tot_boundary += res["n_boundary"]
-        tot_dec += res["n_nontrivial"]
-        case = dict(kind="sequence", spec=spec, events=[{k: v for k, v in e.items()} for e in res["events"]])
-        # rung levels: independent recomputation when the reduction factor is an integer
+        tot["boundary"] += res["n_boundary"]
+        tot["dec"] += res["n_nontrivial"]
+        twin = " [interleaved twin experiment]" if case["kind"] == "twin" else ""
         if res["impl_max_t"] != spec["max_t"]:
             ctx.violation("property", "scheduler.max_t = %r, documented maximum resource %r (max_t argument %r, max_resource_attr %r, "
                           "constants %r)" % (res["impl_max_t"], spec["max_t"], spec.get("max_t_arg"), spec.get("max_resource_attr"),
@@ -779,15 +849,42 @@ def run(ctx, replay=None):
                           "reduction_factor=%r, max_t=%r)" % (res["levels"], want_levels, spec.get("grace_period"), rf, spec["max_t"]),
                           case=case, signature=dict(check="rung_levels", rf_integer=bool(rf is None or int(rf) == rf)))
         for what, defect in res["violations"][:1]:
-            ctx.violation("property", what, case=case,
-                          signature=dict(scheduler="HyperbandScheduler", type=spec["type"], defect=defect))
+            ctx.violation("property", what + twin, case=case,
+                          signature=dict(scheduler="HyperbandScheduler", type=spec["type"], defect=defect,
+                                         twin=case["kind"] == "twin"))
         terms.append(seq_term(spec, res))
         meta.append(case)
+
+    for kind, spec, events in jobs:
+        first = spec if kind == "single" else spec[0]
+        raw_case = dict(kind="sequence", spec=spec, events=events) if kind == "single" else dict(kind="twin", specs=spec, events=events)
+        try:
+            with U.watchdog(180):
+                results = [run_sequence(ctx, spec, events)] if kind == "single" else run_twin(ctx, spec, events)
+        except ConstructorRaised as e:
+            ctx.violation("property", "HyperbandScheduler constructor raised %s for a valid configuration (documented max resource %r, "
+                          "max_t argument %r, max_resource_attr %r, constants %r)" % (e, first["max_t"], first.get("max_t_arg"),
+                                                                                     first.get("max_resource_attr"), first.get("space_consts")),
+                          case=raw_case,
+                          signature=dict(scheduler="HyperbandScheduler", type=first["type"], defect="constructor_raises"))
+            continue
+        except U.Hang as e:
+            ctx.violation("property", "HyperbandScheduler did not answer: %s" % e, case=raw_case,
+                          signature=dict(scheduler="HyperbandScheduler", type=first["type"], defect="hang"))
+            continue
+        if kind == "single":
+            process(spec, results[0], dict(kind="sequence", spec=spec, events=[dict(e) for e in results[0]["events"]]))
+        else:
+            ctx.h("twin_experiments", "pairs")
+            case = dict(kind="twin", specs=spec, events=[[dict(e) for e in r["events"]] for r in results])
+            for sp, r in zip(spec, results):
+                process(sp, r, case)
     if terms:
         ctx.notes.append("decisions at a rung with >= 2 entries: %d, of which Boundary (|metric - cutoff| <= 8 (n+1) half-ulps * scale, n = rung size; "
-                         "either answer accepted): %d" % (tot_dec, tot_boundary))
+                         "either answer accepted): %d" % (tot["dec"], tot["boundary"]))
         m0 = meta[0]
-        ctx.sample(dict(kind="sequence", spec=m0["spec"], first_events=m0["events"][:12]))
+        if m0["kind"] == "sequence":
+            ctx.sample(dict(kind="sequence", spec=m0["spec"], first_events=m0["events"][:12]))
         for i in ctx.coq_bad_cases("seq", IMPORTS, PRELUDE, "chk_seq", terms, shard=24):
             ctx.violation("correspondence", "model decisions / rung sizes differ from the real HyperbandScheduler",
                           case=meta[i], failing_input=False,
